@@ -685,6 +685,8 @@ def report(ctx, srv, hist, probe, origin):
     w = warm["outs"][-1]
     c = srv.cold([probe])[0]
     sig = "history: " + " ; ".join(W.call_sig(x) for x in hist) + " ; probe: " + W.call_sig(probe) + f" ; warm={brief(w)} ; cold={brief(c)}"
+    if brief(w) == brief(c) and "array" in w.get("ok", {}) and "array" in c.get("ok", {}):
+        sig += f" ; values differ: warm {w['ok']['array']['v'][:4]} cold {c['ok']['array']['v'][:4]}"
     if warm["stacks"] != {"use_stack": 0, "dependon": 0}:
         sig += f" ; context stacks left behind after the history: use_stack={warm['stacks']['use_stack']} dependon={warm['stacks']['dependon']}"
     ctx.violation(sig, {"kind": "outcome of the last call depends on the earlier calls (warm process vs pristine interpreter)",
